@@ -182,6 +182,30 @@ Theorem C18_grid_roundtrip_pow2 : forall fps k mn F T P,
 Proof. exact grid_roundtrip_pow2_proof. Qed.
 Print Assumptions C18_grid_roundtrip_pow2.
 
+(* the converse: notes on the frame grid (times frame * (1/fps)), exact boundaries, at least one silent frame
+   between notes of the same pitch -> roll -> notes gives back exactly those notes *)
+Theorem C18_grid_converse : forall fps total mn P (N : list (Z * Z * Z)),
+  let c := grid_cfg fps total mn (Z.of_nat P) in
+  0 < rows_of c ->
+  (forall p a b, In (p, a, b) N ->
+     0 <= p < Z.of_nat P /\ 0 <= a < b /\ b <= rows_of c /\ frame_exact fps a = true /\ frame_exact fps b = true) ->
+  (forall p a b a' b', In (p, a, b) N -> In (p, a', b') N -> (a = a' /\ b = b') \/ b < a' \/ b' < a) ->
+  forall p a b,
+    In (p, a, b) (decode_spans (active_roll c (map (grid_note fps mn) N)) None None) <-> In (p, a, b) N.
+Proof. exact grid_converse_proof. Qed.
+Print Assumptions C18_grid_converse.
+
+Theorem C18_grid_converse_pow2 : forall fps k total mn P (N : list (Z * Z * Z)),
+  fin fps -> R_of fps = bpow radix2 k -> -64 <= k <= 64 ->
+  let c := grid_cfg fps total mn (Z.of_nat P) in
+  0 < rows_of c < 2 ^ 53 ->
+  (forall p a b, In (p, a, b) N -> 0 <= p < Z.of_nat P /\ 0 <= a < b /\ b <= rows_of c) ->
+  (forall p a b a' b', In (p, a, b) N -> In (p, a', b') N -> (a = a' /\ b = b') \/ b < a' \/ b' < a) ->
+  forall p a b,
+    In (p, a, b) (decode_spans (active_roll c (map (grid_note fps mn) N)) None None) <-> In (p, a, b) N.
+Proof. exact grid_converse_pow2_proof. Qed.
+Print Assumptions C18_grid_converse_pow2.
+
 (* F14: at 100 fps a note starting at frame 29 (0.29 s) comes back starting at frame 28 *)
 Theorem C18_grid_roundtrip_refuted :
   rect f14_roll 31 1 /\
